@@ -7,10 +7,10 @@ C17 driver: one case per line → one canonical answer per line.
 
 Avro ops (`avro`, `soe`, `ocf`, `ocfz`, `dec`) use a compact grammar:
 
-  schema  S ::= n | b | B | i | l | f | d | y | s | x<N> | e<N> | ?S | !S | u(S,…) | r(S,…) | aS | mS
+  schema  S ::= n | b | B | i | l | f | d | y | s | x<N> | e<N> | ?S | !S | u(S,…) | r(S,…) | aS | mS | D<p>.<s> | G<n>.<p>.<s> | t1…t9 | U | I
                 (`?` nullable null-first, `!` nullable null-second, `m` map = array of (string, value))
   value   V ::= N | T | F | i<int>; | l<int>; | f<hex8>; | d<hex16>; | y<hex>; | s<hex>; | x<hex>;
-              | e<int>; | _ | +V | u<idx>:V | r(V…) | a(V…) | m(s<hex>;V …)
+              | e<int>; | D<16|32>:<int>; | _ | +V | u<idx>:V | r(V…) | a(V…) | m(s<hex>;V …)
   rows    row|row|…        (each row an `r(…)` value of the top-level record schema)
 
 Answers are computed with the model; the model decoder is run on the model's own bytes and
@@ -45,6 +45,36 @@ def parseSchema : Nat → List Char → Option (Schema × List Char)
     | 'y' :: r => some (.bytes, r)
     | 's' :: r => some (.string, r)
     | 'x' :: r => let (d, r') := takeDigits r; (String.ofList d).toNat?.map (fun n => (.fixed n, r'))
+    -- decimals: `D<p>.<s>` bytes-backed, `G<n>.<p>.<s>` fixed(n)-backed; the Arrow width is 16 bytes
+    -- (Decimal128) for precision ≤ 38 and 32 bytes (Decimal256) above, on the writer and the reader side
+    | 'D' :: r =>
+      let (p, r1) := takeDigits r
+      match r1 with
+      | '.' :: r2 =>
+        let (_, r3) := takeDigits r2
+        (String.ofList p).toNat?.map (fun p => (.decimal none (if p ≤ 38 then 16 else 32), r3))
+      | _ => none
+    | 'G' :: r =>
+      let (n, r1) := takeDigits r
+      match r1 with
+      | '.' :: r2 =>
+        let (p, r3) := takeDigits r2
+        match r3 with
+        | '.' :: r4 =>
+          let (_, r5) := takeDigits r4
+          match (String.ofList n).toNat?, (String.ofList p).toNat? with
+          | some n, some p => some (.decimal (some n) (if p ≤ 38 then 16 else 32), r5)
+          | _, _ => none
+        | _ => none
+      | _ => none
+    -- logical types over int / long: t1 date, t2 time-millis (int); t3 time-micros, t4/t5 timestamp-millis/micros,
+    -- t6/t7 local-timestamp-millis/micros, t8/t9 timestamp-nanos / local-timestamp-nanos (long)
+    | 't' :: c :: r =>
+      if c = '1' ∨ c = '2' then some (.int, r)
+      else if c.isDigit then some (.long, r) else none
+    -- uuid (string of 36 hex/hyphen characters) and duration (fixed 12) are checked by the harness only
+    | 'U' :: r => some (.string, r)
+    | 'I' :: r => some (.fixed 12, r)
     | 'e' :: r => let (d, r') := takeDigits r; (String.ofList d).toNat?.map (fun n => (.enum n, r'))
     | '?' :: r => (parseSchema fuel r).map (fun p => (.nullable true p.1, p.2))
     | '!' :: r => (parseSchema fuel r).map (fun p => (.nullable false p.1, p.2))
@@ -73,6 +103,9 @@ def parseHexTok (cs : List Char) : Option (List Nat × List Char) :=
   let (d, r) := takeUntil ';' cs
   (if d.isEmpty then some [] else parseHex (String.ofList d)).map (fun b => (b, r))
 
+/-- `iN::to_be_bytes` for an `n`-byte two's-complement integer -/
+def toBE (n : Nat) (v : Int) : List Nat := (leBytes n (v % (2 : Int) ^ (8 * n)).toNat).reverse
+
 /-- big-endian hex digits → Nat -/
 def beNat (bs : List Nat) : Nat := bs.foldl (fun a b => a * 256 + b) 0
 
@@ -94,6 +127,11 @@ def parseValue : Nat → List Char → Option (Value × List Char)
     | 'y' :: r => (parseHexTok r).map (fun p => (.bytes p.1, p.2))
     | 's' :: r => (parseHexTok r).map (fun p => (.bytes p.1, p.2))
     | 'x' :: r => (parseHexTok r).map (fun p => (.fixed p.1, p.2))
+    | 'D' :: r =>
+      let (w, r') := takeUntil ':' r
+      match (String.ofList w).toNat?, parseIntTok r' with
+      | some w, some (v, r'') => some (.dec (toBE w v), r'')
+      | _, _ => none
     | 'u' :: r =>
       let (d, r') := takeUntil ':' r
       match (String.ofList d).toNat?, parseValue fuel r' with
@@ -158,6 +196,7 @@ def showValue : Value → String
   | .some v => "+" ++ showValue v
   | .union i v => s!"u{i}:" ++ showValue v
   | .list vs => "(" ++ showValues vs ++ ")"
+  | .dec be => s!"D{hexOrEmpty be};"
 def showValues : List Value → String
   | [] => ""
   | v :: vs => showValue v ++ showValues vs
@@ -179,7 +218,14 @@ def avroRows (fs : List Schema) (rows : List (List Value)) : Except String (List
 
 def showRowsHex (encs : List (List Nat)) : String := showList (fun e => toHex e) encs
 
+/-- schemas with a uuid (`U`) or duration (`I`) column are not modelled (harness oracles only) -/
+def unmodelled (sch : String) : Bool := sch.toList.any (fun c => c = 'U' || c = 'I')
+
 def handleAvro (toks : List String) : Option String :=
+  if (match toks with
+      | [op, sch, _] => (op = "avro" || op = "ocf") && unmodelled sch
+      | [op, _, sch, _] => (op = "soe" || op = "ocfz") && unmodelled sch
+      | _ => false) then some "SKIP" else
   match toks with
   | ["avro", sch, rows] =>
     match (schemaOf sch).bind fieldsOf, rowsOf rows with
